@@ -4,6 +4,7 @@ import st_fixtures
 
 LEVEL = "model_checking"
 PREFIXES = ["C06_"]
+ABANDON = ["C06_VictimRoomTaken", "C06_Together", "C06_Preempt", "C06_Reclaim", "C06_Consolidation", "C06_MinRuntime"]
 
 
 def nontrivial(sc, body):
@@ -16,6 +17,10 @@ def run(ctx):
                        "settings with start times hours away from the limits; non-trivial = the real scheduler evicted at least one pod")
     n = 1200 if ctx.quick else 12000
     st_cluster.run_stage(ctx, PREFIXES, [("full", n // 4), ("closed", n // 8), ("mixed", n // 8), ("minrt", n // 2)], nontrivial_fn=nontrivial)
+    # the solver's node-by-node attempts (spread victim gangs, claimants that need most of one node): every C06 predicate
+    # except C06_VictimHolds (the known finding G37 is frequent in this profile and would use up the report budget)
+    m = 400 if ctx.quick else 6000
+    st_cluster.run_stage(ctx, ABANDON, [("abandon", m)], nontrivial_fn=nontrivial, tag="-abandon")
     if not ctx.quick:
         st_fixtures.run_stage(ctx, PREFIXES)
 
